@@ -8,6 +8,7 @@ import (
 	"github.com/rulego/streamsql/condition"
 	"github.com/rulego/streamsql/functions"
 	"github.com/rulego/streamsql/internal/zzverif"
+	"github.com/rulego/streamsql/logger"
 	"github.com/rulego/streamsql/types"
 )
 
@@ -206,5 +207,49 @@ func VerifC14When() {
 			last[p] = refs[p].Apply(args)
 		}
 		zzverif.Assert(verifSameAnyS(got, last[p]), "when-gated-analytic-equals-last-passing-result")
+	}
+}
+
+// VerifC14Wrapper: an expression around an analytic call, v - lag(v) OVER (PARTITION BY k), on rows where
+// v may be present, NULL or ABSENT, partitions interleaved: a row without a usable v yields NULL and never
+// a value computed from another row's v. (Job option exprlang_error=1: the VM reports an evaluation
+// error - which it does for a nil operand - so the repo's fallback evaluator computes the wrapper.)
+func VerifC14Wrapper() {
+	m := zzverif.Param("rows", 4)
+	nparts := zzverif.Param("parts", 2)
+	af := types.AnalyticField{FuncName: "lag", Args: []string{"v"}, Expression: "lag(v)", Alias: "d",
+		Over:        &types.OverSpec{PartitionBy: []string{"k"}},
+		WrapperExpr: "v - " + types.AnalyticSelfTokenN(0),
+		Calls:       []types.AnalyticCall{{FuncName: "lag", BareCall: "lag(v)", Args: []string{"v"}}}}
+	fe := verifFieldEngine(af, 10)
+	s := &Stream{log: logger.NewDiscardLogger()}
+	type hist struct {
+		has bool // a previous row exists in the partition
+		val any  // its v (nil when NULL/absent)
+	}
+	prev := make([]hist, nparts)
+	names := []string{"A", "B"}
+	for i := 0; i < m; i++ {
+		p := zzverif.Choose("part", nparts)
+		v, kind := verifRowVal("v")
+		row := map[string]any{"k": names[p]}
+		if kind != 2 {
+			row["v"] = v
+		}
+		got := fe.evaluate(s, row)
+		// definition: v - (previous row's v of the same partition); NULL if either is NULL/absent
+		var want any
+		if cur, ok := v.(int); ok && prev[p].has {
+			if pv, ok2 := prev[p].val.(int); ok2 {
+				want = float64(cur - pv)
+			}
+		}
+		if want == nil {
+			zzverif.Assert(got == nil, "wrapper-over-analytic-is-null-without-both-operands")
+		} else {
+			g, ok := got.(float64)
+			zzverif.Assert(ok && g == want.(float64), "wrapper-over-analytic-equals-definition")
+		}
+		prev[p] = hist{true, v}
 	}
 }
